@@ -34,6 +34,22 @@ CHECKS = {
             "Sabotaged copies must be rejected.",
             TRUST + "standard normal quantiles for STEPD from scipy.stats.norm.ppf.",
             "TLA+ spec + TLC model checking + TLC trace validation of recorded executions", "5/C05"),
+    "C12": ("TLC explores Ensemble.tla (members as abstract lifecycle machines, four elections from Election.tla, own counters, reset fan-out) "
+            "for 1-3 members, all vote schedules to depth 5/7: verdict = rule(member states), counters count updates, reset reaches everyone. "
+            "Conformance: real StreamingEnsemble/BatchEnsemble with mixed members (DDM, EDDM, STEPD, ADWIN, PageHinkley, CUSUM, KdqTreeStreaming; "
+            "HDDDM, CDBD, KdqTreeBatch, NNDVI), random column selectors, ndarray and DataFrame input, resets and set_reference mid-history, are run "
+            "next to independently updated real twins under one numpy seed per step; TLC validates every event: member = twin, views = members, "
+            "ensemble state = election over the logged member states (ConfirmedElection counters included), own counters.",
+            TRUST + "twins are deep copies of the freshly constructed members.",
+            "TLA+ spec + TLC model checking + TLC validation of product traces (ensemble vs lone twins)", "5/C12"),
+    "C13": ("Election.tla states each election twice (documented scan and voting rule); TLC proves them equal, range and monotonicity for ALL "
+            "state vectors of up to 3/4 members and all parameters 0..n+1, and explores the ConfirmedElection machine exhaustively (every reachable "
+            "counter vector x every vote vector; counter bound; equivalence with the property's 'remaining voting calls' formulation). "
+            "Conformance B: every case and every ConfirmedElection transition TLC enumerated (11k quick / 200k thorough) is executed on the real "
+            "classes with stub members (counters set through the public attribute) and compared; conformance A: random ConfirmedElection walks with "
+            "up to 7 members validated by Trace_Election.",
+            TRUST + "members are stubs exposing drift_state only.",
+            "TLA+ spec + exhaustive TLC enumeration replayed into the implementation + trace validation", "5/C13"),
 }
 
 NA_REASON = "check not built yet (build in progress; see DESIGN.md section 5)"
